@@ -247,6 +247,13 @@ func TestC03Rapid(t *testing.T) {
 	foreignWarmup("aztec")
 	st := NewStats("C03", "rapid")
 	runRapid(t, st, func(rt *rapid.T) {
+		if rapid.IntRange(0, 19).Draw(rt, "seek") == 0 {
+			for _, c := range genAztecSeek(rt) {
+				c03Account(st, c, checkAztecRoundTrip(rt, st, c))
+				st.Class("around a size transition of the implementation (found by bisection)")
+			}
+			return
+		}
 		c := genAztecCase(rt)
 		res := checkAztecRoundTrip(rt, st, c)
 		c03Account(st, c, res)
